@@ -126,7 +126,7 @@ def attr_diffs(a, b):
 	return out
 
 
-def roundtrip_case(rep, rng, thorough, tmpdir):
+def roundtrip_case(rep, rng, thorough, tmpdir, drv=None):
 	from stockpyl.supply_chain_network import SupplyChainNetwork
 	from stockpyl.helpers import serialize_set, deserialize_set
 	from stockpyl.instances import save_instance, load_instance
@@ -160,6 +160,24 @@ def roundtrip_case(rep, rng, thorough, tmpdir):
 				if d_in != d_ref:
 					bad.append('from_dict altered the dict it was given')
 				net2b = SupplyChainNetwork.from_dict(d_in)
+				# the Lean model of the generic to_dict / from_dict branch (Model/Serial.lean attrFromDict; theorem attr_roundtrip) on every
+				# real product of the network: the value is decided by the key's presence, never by the value's truthiness
+				if drv is not None:
+					from stockpyl.supply_chain_product import SupplyChainProduct
+					NUM = ['local_holding_cost', 'echelon_holding_cost', 'in_transit_holding_cost', 'stockout_cost', 'revenue', 'shipment_lead_time',
+						   'order_lead_time', 'initial_inventory_level', 'initial_orders', 'initial_shipments', 'order_capacity']
+					for po in net.products:
+						if po.index < 0:
+							continue
+						pd = json.loads(json.dumps(po.to_dict(), default=serialize_set), object_hook=deserialize_set)
+						ent = [[a_, None if pd[a_] is None else core.fr(F(float(pd[a_])))] for a_ in NUM if a_ in pd and (pd[a_] is None or isinstance(pd[a_], (int, float)))]
+						mo = drv.call('attrdict', dict=ent, queries=[[a_, None] for a_, _ in ent])
+						po2 = SupplyChainProduct.from_dict(pd)
+						rep.exact_cmp += len(ent)
+						for (a_, v_), m_ in zip(ent, mo):
+							g_ = getattr(po2, a_)
+							if (g_ is None) != (m_ is None) or (g_ is not None and F(float(g_)) != core.unfr(m_)):
+								bad.append('product %s: %s stored as %r comes back as %r (model %r)' % (po.index, a_, pd[a_], g_, m_))
 				again = attr_diffs(net2, net2b)
 				if again:
 					bad.append('decoding the same dict a second time gives a different network: ' + '; '.join(again[:2]))
@@ -398,7 +416,7 @@ def run(rep, drv):
 	tmpdir = tempfile.mkdtemp(prefix='verif_c17_')
 	try:
 		for k in range(600 if th else 70):
-			roundtrip_case(rep, rng, th, tmpdir)
+			roundtrip_case(rep, rng, th, tmpdir, drv)
 		for k in range(400 if th else 60):
 			store_case(rep, drv, rng, tmpdir)
 		for k in range(500 if th else 70):
